@@ -309,7 +309,7 @@ fn touch2(f: &mut zip::read::ZipFile<'_>, bufs: &[u32], cap: u64, streamed: bool
     h = mix(h, err.is_some() as u64);
     // C04: a read that reached EOF without error returned bytes whose CRC is the declared one
     // (entries carrying an AES extra record are exempt here: AE-2 has no CRC; C16 covers them)
-    if err.is_none() && (data.len() as u64) <= cap && !exempt && crate::content::crc32(&data) != declared {
+    if err.is_none() && !read_gave_up() && (data.len() as u64) <= cap && !exempt && crate::content::crc32(&data) != declared {
         CRC_BAD.with(|c| {
             let mut c = c.borrow_mut();
             if c.is_none() {
